@@ -408,7 +408,7 @@ def execute(sc):
         if v not in seen:
             seen.add(v)
             uniq.append(v)
-    return dict(events=ev, viol=uniq, nacts=acts.k, stats=st, hot=hot, d18=d18, body_ks=body_ks)
+    return dict(events=ev, viol=uniq, nacts=acts.k, stats=st, hot=hot, d18=d18, body_ks=body_ks, final=proj())
 
 
 # ------------------------------------------------------------------ Coq rendering
@@ -424,16 +424,17 @@ def coq_op(op):
     return '%s %d' % (op[0], op[1])
 
 
-def coq_case(sc, ev):
+def coq_case(sc, ev, final):
     evs = F.clist(['(%s, %s, %s)' % (coq_op(op), o, F.clist([F.czs(p) for p in pr])) for op, o, pr in ev])
-    return '(%d%%nat, %s, %s, %s)' % (sc['nk'], F.cbool(sc['kind'] == 'cap'), F.czs(sc['supply']), evs)
+    return '(%d%%nat, %s, %s, %s, %s)' % (sc['nk'], F.cbool(sc['kind'] == 'cap'), F.czs(sc['supply']), evs,
+                                         F.clist([F.czs(p) for p in final]))
 
 
 def check_coq(ctx, batch, tag):
     paths, index = [], {}
     for off, part in F.chunks(batch, 250):
         txt = F.case_file('From Usim Require Import Levels BorrowProto.', 'bcase',
-                          [coq_case(sc, e) for sc, e in part], 'bad_idx 0 cases')
+                          [coq_case(sc, e, fin) for sc, e, fin in part], 'bad_idx 0 cases')
         p = ctx.write_case_file('%s_%05d' % (tag, off), txt)
         paths.append(p)
         index[p] = part
@@ -444,7 +445,7 @@ def check_coq(ctx, batch, tag):
             ctx.mismatch('resources', part[0][0], 'coqc rc=%s' % rc, out[-600:], 'case file did not evaluate')
             continue
         for j in range(0, len(bad), 2):
-            case, evs = part[bad[j]]
+            case, evs, _fin = part[bad[j]]
             k = bad[j + 1]
             ctx.mismatch('resources', case, impl=[list(map(str, e)) for e in evs[max(0, k - 3):k]],
                          model='BorrowProto.step disagrees at logged section %d' % k,
@@ -558,7 +559,7 @@ def run(ctx):
         elif r['d18']:
             ctx.fail(sc, r['d18'][0], finding='D18', family='resources')
             ctx.bump('known_finding_D18')
-        batch.append((sc, r['events']))
+        batch.append((sc, r['events'], r['final']))
         if len(ctx.samples) < 3 and s['fault_acquire']:
             ctx.sample(dict(scenario=sc, events=[list(map(str, e)) for e in r['events'][:14]]))
     batch += directed_d18(ctx)
@@ -577,14 +578,14 @@ def directed_d18(ctx):
                            blocks=[dict(claim=False, amt=[3], hold=2,
                                         nested=dict(claim=False, amt=[1], hold=5, nested=None))])])
     r0 = execute(base)
-    out = [(base, r0['events'])]
+    out = [(base, r0['events'], r0['final'])]
     ctx.count(base)
     for k in r0['body_ks'].get('t0', [])[:8]:
         sc = json.loads(json.dumps(base))
         sc['faults'] = [dict(kind='cancel', k=k, victim='t0'), dict(kind='cancel', k=k, victim='t0')]
         r = execute(sc)
         ctx.count(sc)
-        out.append((sc, r['events']))
+        out.append((sc, r['events'], r['final']))
         if r['viol']:
             ctx.fail(sc, '; '.join(r['viol'][:3]), family='resources')
         elif r['d18']:
